@@ -65,11 +65,28 @@ func condGuard(b *ssa.BasicBlock, pred func(c Cond) bool) bool {
 	})
 }
 
+// condGuardEdge: like condGuard for the edge b→to (to == nil: for block b): the edge itself may be the guarding branch.
+func condGuardEdge(b, to *ssa.BasicBlock, pred func(c Cond) bool) bool {
+	if to != nil && len(b.Instrs) > 0 {
+		if ifi, ok := b.Instrs[len(b.Instrs)-1].(*ssa.If); ok && b.Succs[0] != b.Succs[1] {
+			br := b.Succs[0] == to
+			if br || b.Succs[1] == to {
+				for _, c := range impliedConds(ifi, br) {
+					if pred(c) {
+						return true
+					}
+				}
+			}
+		}
+	}
+	return condGuard(b, pred)
+}
+
 // errNilGuard: b is only reached on the `err == nil` edge of call (its error result).
 func errNilGuard(b *ssa.BasicBlock, call *ssa.Call) bool {
 	return guardedBy(b, func(ifi *ssa.If, br bool) bool {
-		c, _, isNil, ok := errTest(ifi, br)
-		return ok && c == call && isNil
+		isNil, ok := errTestOf(ifi, br, call)
+		return ok && isNil
 	})
 }
 
